@@ -1,5 +1,6 @@
 // C04: all documented routes to the same quantity agree.
 // args: <grid spec> <history> <xmode>
+//  history: 8 (local polynomial) the full point set minus ONE interior point whose parent and children stay: direct parent missing, farther ancestor present, delivered in one batch
 //  history: 0 fresh loaded | 1 loaded + pending refinement | 2 merged refinement + coefficient overwrite | 3 partially finished construction | 4 coefficient overwrite
 //  xmode: 0 batch of concrete points (nodes, interior, boundary, support edges) | 1 one symbolic point x in the domain
 //         2 a batch of <size> concrete pseudo-random points (4th argument; batch sizes around the block size 32 of the sparse assembly)
@@ -30,6 +31,22 @@ int main(int argc, char **argv){
     if (victim < 0){ fpsym_finish(); return 0; }     // the rule has no step-parents (or the grid is too shallow): nothing to test
     std::vector<double> all = grid.getPoints(), sub;
     for (int i=0;i<np;i++) if (!regAnc(P[victim], P[i])) sub.insert(sub.end(), all.begin() + (size_t) i * d, all.begin() + (size_t) (i + 1) * d);
+    GridSpec g0 = g; g0.depth = 0; makeGrid(grid, g0);
+    grid.beginConstruction();
+    grid.loadConstructedPoints(sub, model.values(sub, d));
+    fpsym_note("subset_points", (long) sub.size() / d);
+  } else if (history == 8){
+    if (!grid.isLocalPolynomial()){ fpsym_finish(); return 0; }
+    RuleLocal::erule r = RuleLocal::getEffectiveRule(grid.getOrder(), grid.getRule());
+    const int *idx = grid.getPointsIndexes(); int np = grid.getNumPoints();
+    // victim: a point of 1-D level >= 1 in direction 0 (level 0 elsewhere is not required) that has a kid in direction 0 inside the set
+    int victim = -1;
+    for (int i=0;i<np && victim < 0;i++){ int p0 = idx[(size_t) i * d]; if (lpLevel(r, p0) < 1) continue;
+      for (int q=0;q<np;q++){ bool same = true; for (int j=1;j<d;j++) if (idx[(size_t) q * d + j] != idx[(size_t) i * d + j]) same = false; if (same && lpParent(r, idx[(size_t) q * d], false) == p0){ victim = i; break; } } }
+    fpsym_note("victim_point", victim);
+    if (victim < 0){ fpsym_finish(); return 0; }
+    std::vector<double> all = grid.getPoints(), sub;
+    for (int i=0;i<np;i++) if (i != victim) sub.insert(sub.end(), all.begin() + (size_t) i * d, all.begin() + (size_t) (i + 1) * d);
     GridSpec g0 = g; g0.depth = 0; makeGrid(grid, g0);
     grid.beginConstruction();
     grid.loadConstructedPoints(sub, model.values(sub, d));
@@ -97,6 +114,8 @@ int main(int argc, char **argv){
     for (int i=0;i<std::min(n, 2);i++) for (int j=0;j<d;j++) xs.push_back(loaded_pts[(size_t) i * d + j]);                        // nodes
     for (int j=0;j<d;j++) xs.push_back(domLo(g, j) + (0.37 + 0.11 * j) * (domHi(g, j) - domLo(g, j)));                              // interior
     for (int j=0;j<d;j++) xs.push_back(j % 2 ? domLo(g, j) : domHi(g, j));                                                          // corner of the domain
+    for (int j=0;j<d;j++) xs.push_back(0.5 * (domLo(g, j) + domHi(g, j)));                                                         // centre of the domain (Fourier: half a period from node 0)
+    if (grid.isFourier()){ for (double f : {1.0 / 6.0, 5.0 / 6.0, 11.0 / 18.0}) for (int j=0;j<d;j++) xs.push_back(domLo(g, j) + (j == 0 ? f : 0.5) * (domHi(g, j) - domLo(g, j))); }   // half a period from the nodes 2/3, 1/3, 1/9
     if (grid.isLocalPolynomial() || grid.isWavelet()){
       std::vector<double> sup = grid.getHierarchicalSupport(); int pick = n - 1;
       for (int sgn = -1; sgn <= 1; sgn += 2){ // support edge of the last basis function in direction 0, and a point just outside
